@@ -364,9 +364,19 @@ fn key_strategy() -> BoxedStrategy<KeyRef> {
         2 => "[a-z_][a-z_0-9./!]{0,7}"
             .prop_filter("not a known key", |s| !DOCUMENTED.contains(&s.as_str()) && !CUSTOM.iter().any(|k| k.0 == s))
             .prop_map(KeyRef::Unknown),
+        // near misses: a documented key with one of the affixes other documented keys carry
+        2 => (0..DOCUMENTED.len(), 0..AFFIXES.len())
+            .prop_map(|(k, a)| { let (pre, suf) = AFFIXES[a]; format!("{pre}{}{suf}", DOCUMENTED[k]) })
+            .prop_filter("not a known key", |s| !DOCUMENTED.contains(&s.as_str()) && !CUSTOM.iter().any(|k| k.0 == s))
+            .prop_map(KeyRef::Unknown),
     ]
     .boxed()
 }
+
+const AFFIXES: &[(&str, &str)] = &[
+    ("", "_precise"), ("", "_bytes"), ("", "_per_sec"), ("", "s"), ("", "_"), ("", "2"), ("", "_msg"), ("", "_bar"),
+    ("wide_", ""), ("binary_", ""), ("decimal_", ""), ("human_", ""), ("total_", ""), ("_", ""), ("per_", ""),
+];
 
 fn width_strategy() -> BoxedStrategy<u32> {
     prop_oneof![
